@@ -1371,8 +1371,10 @@ namespace xsimd
                         if (all(test))
                             return select(inf_result, constants::nan<batch_type>(), r);
                     }
-                    batch_type r1 = other(a);
-                    batch_type r2 = select(test, r, r1);
+                // lanes below -34 take the large_negative result: keep them out of the recurrences of other(),
+                // which would walk them up to 2 one unit per iteration
+                batch_type r1 = other(select(test, batch_type(2.), a));
+                batch_type r2 = select(test, r, r1);
                     return select(a == constants::minusinfinity<batch_type>(), constants::nan<batch_type>(), select(inf_result, constants::infinity<batch_type>(), r2));
                 }
 
